@@ -700,7 +700,7 @@ func encodeECDHKey(e *jsonutils.Encoder, priv *ecdhPrivateKey, pub *ecdhPublicKe
 		e.SetBytes("y", data[66+1:])
 	case ecdh.X25519():
 		e.Set("kty", jwa.OKP)
-		e.Set("crv", jwa.Ed25519.String())
+		e.Set("crv", jwa.X25519.String())
 		e.SetBytes("x", pub.Bytes())
 	}
 
